@@ -28,6 +28,15 @@ def run(ctx):
             r["failures"] += fails
             r["evaluations"] += n
         results.append(r)
+    # sub-second, irregular axes for rate of change: model correspondence + arbitrary time shifts
+    import fn_rate
+    roc = fn_rate.Roc()
+    sub = cc.roc_subsecond_cases(rng, 150 if tier == "quick" else 1500)
+    rsub = adapters.run_adapter(roc, sub, rng, repeat_frac=0)
+    n_sh, f_sh = cc.roc_time_shift_failures(roc, sub, rng)
+    rsub["failures"] += f_sh
+    rsub["evaluations"] += n_sh
+    results.append(rsub)
     out = adapters.merge(
         results,
         rule="per test: sampled in-domain cases transformed by a value offset, negation, time offset, joint data+span "
